@@ -35,6 +35,7 @@ type statsParams struct {
 	PCap    int   `json:"pcap"`
 	Healthy int64 `json:"healthy"`
 	Timeout int64 `json:"timeout"`
+	Live    bool  `json:"live,omitempty"` // the SLO setting is installed by Tracker.SetConfigThreadSafe (the only way to reach 0)
 }
 
 type statsOp struct {
@@ -78,6 +79,9 @@ func (statsFamily) Gen(r *rand.Rand, i int, tier string) *hc.Case {
 	n := hc.Pick(r, 1, 2, 4, 10)
 	p := statsParams{N: n, W: hc.Pick(r, ms, 100*ms, sec), PN: hc.Pick(r, 1, 2, 6), PW: hc.Pick(r, sec, 10*sec), PCap: hc.Pick(r, 1, 3, 100),
 		Healthy: hc.Pick(r, ms, 250*ms), Timeout: hc.Pick(r, 10*ms, sec)}
+	if r.Intn(2) == 0 {
+		p.Live, p.Healthy = true, hc.Pick(r, int64(0), 0, ms, 250*ms, 400*ms)
+	}
 	var ops []statsOp
 	nops := 8 + r.Intn(25)
 	for len(ops) < nops {
@@ -159,6 +163,9 @@ func (statsFamily) Exec(c *hc.Case) {
 		FallbackConfig: rolling.FallbackStatsConfig{Now: clk, RollingStatsDuration: time.Duration(int64(p.N) * p.W), RollingStatsNumBuckets: p.N},
 	}
 	slo := &responsetimeslo.Factory{Config: responsetimeslo.Config{MaximumHealthyTime: time.Duration(p.Healthy)}}
+	if p.Live {
+		slo.Config.MaximumHealthyTime = 777 * time.Millisecond // replaced below, live
+	}
 	var tracker *responsetimeslo.Tracker
 	m := &circuit.Manager{DefaultCircuitProperties: []circuit.CommandPropertiesConstructor{sf.CreateConfig, func(name string) circuit.Config {
 		cfg := slo.CommandProperties(name)
@@ -175,6 +182,9 @@ func (statsFamily) Exec(c *hc.Case) {
 	base.Metrics.Run = []circuit.RunMetrics{statsRec{clk, &evs}}
 	base.Metrics.Fallback = []circuit.FallbackMetrics{statsFbRec{&evs}}
 	cir := m.MustCreateCircuit("stats-circuit", base)
+	if p.Live {
+		tracker.SetConfigThreadSafe(responsetimeslo.Config{MaximumHealthyTime: time.Duration(p.Healthy)})
+	}
 	// two more circuits in the same manager that never see traffic: every record of the stream must be about
 	// the circuit it names (their records are all zeros and closed)
 	m.MustCreateCircuit("a-idle")
